@@ -356,12 +356,12 @@ def correspond(ctx):
         return {'A': (o['audio_buses'] - io) // m - o['reserved_audio_buses'], 'C': o['control_buses'] // m - o['reserved_control_buses'],
                 'B': o['buffers'] // m - o['reserved_buffers']}
 
-    def login_for(o):
+    def login_for(o, cur_m=None):
         # a reply "client id of m" under which the constructors do not raise (every kind keeps a non-empty share)
         for _ in range(10):
             m = rng.choice([None, 1, 2, 3, 4, 6, 8, 16, o['max_logins']])
-            n = m or o['max_logins']
-            if all(v >= 1 for v in shares(o, n).values()):
+            n = m or cur_m or o['max_logins']
+            if n <= 32 and all(v >= 1 for v in shares(o, n).values()):
                 return ['L', rng.randrange(n), m]
         return None
 
@@ -405,16 +405,19 @@ def correspond(ctx):
     for _ in range(ctx.n(4, 24)):
         o1 = rand_opts()
         ops = [['A', 1, 0], ['C', 2, 0]]
+        cm = None
         for _ in range(3):
-            lg = login_for(o1)
+            lg = login_for(o1, cm)
             if lg:
-                pc = shares(o1, lg[2] or o1['max_logins'])
+                cm = lg[2] if lg[2] is not None else cm
+                pc = shares(o1, cm or o1['max_logins'])
                 ops += [lg, ['A', pc['A'], 0], ['C', 1, 0], ['C', pc['C'], 0], ['B', 1, 0], ['N', 2], ['F', 2], ['A', 1, 0]]
         scases.append({'opts': o1, 'client': rng.randrange(o1['max_logins']), 'ops': ops})
     # (b) random object-level histories
     for _ in range(ctx.n(14, 80)):
         opts = rand_opts()
         cur = opts
+        cur_m = None
         ops = []
         for _ in range(rng.randint(5, 45)):
             r = rng.random()
@@ -430,15 +433,22 @@ def correspond(ctx):
             elif r < 0.94:
                 ops.append(['Bx'])
             elif r < 0.96:
-                ops.append(['R', rng.choice([rng.randrange(cur['max_logins']), rng.randrange(cur['max_logins']), rng.randrange(cur['max_logins']), -1, cur['max_logins']])])
+                eff = cur_m or cur['max_logins']
+                ops.append(['R', rng.choice([rng.randrange(eff), rng.randrange(eff), rng.randrange(eff), -1, eff, cur['max_logins']])])
             elif r < 0.97:
-                cur = rand_opts()
-                ops.append(['O', dict(cur)])
-                ops.append(['R', rng.choice([rng.randrange(cur['max_logins']), cur['max_logins']])])
+                for _ in range(10):          # new options under which the constructors (with the count in force) do not raise
+                    cand = rand_opts()
+                    if all(v >= 1 for v in shares(cand, cur_m or cand['max_logins']).values()) and (cur_m or cand['max_logins']) <= 32:
+                        cur = cand
+                        ops.append(['O', dict(cur)])
+                        eff = cur_m or cur['max_logins']
+                        ops.append(['R', rng.choice([rng.randrange(eff), eff])])
+                        break
             elif r < 0.978:
-                lg = login_for(cur)
+                lg = login_for(cur, cur_m)
                 if lg:
                     ops.append(lg)
+                    cur_m = lg[2] if lg[2] is not None else cur_m
             elif r < 0.985:
                 ops.append(['D', rng.choice([1, 2]), rng.randrange(1000)])
             else:
